@@ -38,9 +38,9 @@ type c13Case struct {
 	// Spare: the caller's slices have spare capacity that other slices of the same policy live in: all Names of all
 	// groups are consecutive sub-slices of one array (each with capacity up to the end of the array), likewise all
 	// conditional entries and all condition lists. Writing "behind the end" of one slice then changes a neighbour.
-	Spare  bool   `json:"spare,omitempty"`
+	Spare bool `json:"spare,omitempty"`
 	// Warm (concurrent kind): the value the copies are taken from was compiled once before they were taken
-	Warm bool `json:"warm,omitempty"`
+	Warm   bool   `json:"warm,omitempty"`
 	OpCase uint64 `json:"op_case,omitempty"` // operation names spelled in other letter cases (seed of the spelling)
 	Mutate string `json:"mutate,omitempty"`  // history kind: modify the value in place after the first compilations (default / group-action / drop-group)
 }
